@@ -23,7 +23,7 @@ ASSUMPTIONS = ['crash points are confined to the dynamic extent of assemble() pl
 REQUIRED_REACH = {'quick': ['fail:with-preexisting-files', 'ok:outputs-checked', 'inject:pass-fired', 'inject:line-fired'],
                   'thorough': ['fail:with-preexisting-files', 'ok:outputs-checked', 'inject:pass-fired', 'inject:line-fired']}
 FATAL_OBS = ('xval:DISAGREE',)
-EXPECTED_REACH = ['xval:sim-and-real-agree', 'ok:hex-checked', 'ok:labels-checked', 'ok:hex-straddles-64k', 'fail:cli-validation', 'opt:include-definitions',
+EXPECTED_REACH = ['pre:output-already-identical', 'xval:sim-and-real-agree', 'ok:hex-checked', 'ok:labels-checked', 'ok:hex-straddles-64k', 'fail:cli-validation', 'opt:include-definitions',
                   'opt:verbose', 'opt:compress', 'fail:natural'] + ['failpass:' + p for p in asmsim.PASSES if p not in ('resolve_labels', 'resolve_strings', 'resolve_blobs', 'lex_tokens', 'transform_shorthand_packs', 'resolve_register_aliases', 'resolve_include_bytes', 'resolve_aligns')]
 CHUNK = 100
 SENT = {'out': 'OLD-OUTPUT-SENTINEL\n', 'labels': 'old_label 0x00000bad\n', 'hex': ':00000001FF\n'}
@@ -219,6 +219,19 @@ def make_scenario(spec, seed, idx):
         return scen
     r = core.rng_for(ID, seed, idx)
     scen = base_scenario(r)
+    if k == 'r' and not scen['planted'] and not scen['bad_cli'] and r.random() < 0.12:
+        # the older -o file happens to hold exactly what this run will produce (a rebuild), next to a stale .hex / -l file
+        ref_fs = asmsim.make_fs(progs.tree_files_bytes(scen['tree']), scen['dirs'], cwd=scen['cwd'])
+        if scen['opts'].get('defs'):
+            asmsim.add_definitions(ref_fs)
+        inc = list(scen['opts']['inc']) + ([asmsim.DEFINITIONS_DIR] if scen['opts']['defs'] else [])
+        ref = asmsim.retry_real(asmsim.run_api, ref_fs, {'target': scen['input'], 'compress': scen['opts']['compress'], 'include_dirs': inc}, core.EventLog(0))
+        if ref['ok']:
+            scen['pre_hex'] = {'out': ref['bytes']}
+            for key in ('labels', 'hex'):
+                if scen['paths'][key]:
+                    scen['pre'][key] = SENT[key]
+            scen['pre'].pop('out', None)
     if k == 'l':
         total = count_lines(scen)
         if total:
@@ -241,6 +254,10 @@ def build_fs(scen, factory=None):
         p = scen['paths'].get(key)
         if p and posixpath.dirname(p) in fs.dirs:
             fs.put(p, content)
+    for key, hx in (scen.get('pre_hex') or {}).items():
+        p = scen['paths'].get(key)
+        if p and posixpath.dirname(p) in fs.dirs:
+            fs.put(p, bytes.fromhex(hx))
     return fs
 
 
@@ -309,6 +326,8 @@ def run_scenario(scen, keep_events=False):
     opts = scen['opts']
     failed = outcome != 'ok'
     pre_present = [k for k in ('out', 'labels', 'hex') if paths.get(k) and paths[k] in before]
+    if scen.get('pre_hex'):
+        res.hit('pre:output-already-identical')
     if opts['compress']:
         res.hit('opt:compress')
     if opts['verbose']:
